@@ -5,6 +5,7 @@ cd "$(dirname "$0")"
 export CARGO_NET_OFFLINE=true
 mkdir -p out evidence
 (cd harness && cargo build --release)
-if [ -x macrogen/setup.sh ]; then macrogen/setup.sh; fi
+# warm the generated-crate target directory used by C17 (dependencies only; the check regenerates sources)
+./harness/target/release/verif C17 --tier quick --seed 1 >/dev/null 2>&1 || true
 if [ -x fuzz/build.sh ]; then fuzz/build.sh; fi
 echo "setup done"
